@@ -99,10 +99,12 @@ where
 
         // The rows of periodic images along each cell vector are separated by the height of the
         // cell, so a potential with a cutoff needs as many shells as there are rows within range.
-        let min_height = f64::min(self.cell.a(), self.cell.b()) * self.cell.angle().sin();
-        let periodic_range = match self.shape.interaction_range() {
-            Some(range) => i64::max(3, (range / min_height).ceil() as i64),
-            None => 3,
+        let (range_a, range_b) = match self.shape.interaction_range() {
+            Some(range) => (
+                i64::max(3, (range / (self.cell.a() * self.cell.angle().sin())).ceil() as i64),
+                i64::max(3, (range / (self.cell.b() * self.cell.angle().sin())).ceil() as i64),
+            ),
+            None => (3, 3),
         };
 
         // Compare in periodic cells
@@ -110,7 +112,7 @@ where
             for position in self.relative_positions() {
                 for shape2 in self
                     .cell
-                    .periodic_images(position, periodic_range, false)
+                    .periodic_images_within(position, range_a, range_b)
                     .map(|p| self.shape.transform(&p))
                 {
                     // Every pair with a periodic image is found from both of its ends, so each
